@@ -284,19 +284,29 @@ class Built:
         if d.get("effects"):
             kw["effects"] = [self._effect(did, i) for i, _ in enumerate(d["effects"])]
         kind = d.get("cache", "memory")
+        shared_factory = None
         if self.cache_factory:
             cache = self.cache_factory(kind)
         elif kind == "nocache":
             cache = NoCache()
+        elif kind == "factory":
+            # a configured decorator stored and reused for several datasets: cache=<callable> means one cache each
+            if getattr(self, "_memo_factory", None) is None:
+                self._memo_factory = dataset(cache=MemoryCache)
+            shared_factory = self._memo_factory
+            cache = None
         else:
             cache = MemoryCache()
-        kw["cache"] = cache
-        self.caches.append((f"ds{did}", cache))
+        if cache is not None:
+            kw["cache"] = cache
+            self.caches.append((f"ds{did}", cache))
         if d.get("expr") is not None:
             definition = self.expr(d["expr"])
         else:
             definition = self._body(did, "default", d.get("args", []))
         factory = abstractdataset if d.get("abstract") else dataset
+        if shared_factory is not None:
+            factory = shared_factory(abstract=True) if d.get("abstract") else shared_factory
         form = d.get("form", "decorator")
         if form == "decorator":
             obj = factory(**kw)(definition)
@@ -304,6 +314,8 @@ class Built:
             obj = factory(definition, **kw)
         self.ds_objs[did] = obj
         self.dataset_ids[id(obj)] = did
+        if shared_factory is not None:
+            self.caches.append((f"ds{did}", obj.cache))
         if d.get("effects_disabled"):
             obj.disable_effects()
         for alias, impl in d.get("overloads", []):
